@@ -90,8 +90,10 @@ pub fn run_case(ctx: &Ctx, rep: &mut Report, profile: Profile, case_seed: u64, v
 		sweep::run_sweep(ctx, rep, case_seed, variant);
 		return
 	}
-	if profile == Profile::C09 && variant % 16 == 7 {
-		crate::bulk::run_bulk(ctx, rep, case_seed, variant);
+	if matches!(profile, Profile::C09 | Profile::C01) && variant % 16 == 7 {
+		// a large index migrated in several batches (C09); for C01 the same scenario is "every key
+		// keeps returning its latest value" over a key set of ten thousand
+		crate::bulk::run_bulk(ctx, rep, profile.name(), case_seed, variant);
 		return
 	}
 	let mut rng = Rng::new(case_seed);
@@ -224,9 +226,27 @@ impl<'c> Hist<'c> {
 				pools.push(p);
 				absent.push(a);
 			} else if c.uniform {
-				// keys longer than 32 bytes are admitted by the column type
-				let p = gen::uniform_key_pool(&mut rng, n, true);
-				let a = gen::uniform_key_pool(&mut rng, 8, true);
+				// keys longer than 32 bytes are admitted by the column type; with a real (non-zero)
+				// salt the whole key is hashed, so keys that agree on their first 32 bytes and
+				// differ only behind them are different keys: families of such siblings
+				let mut p = gen::uniform_key_pool(&mut rng, n, true);
+				let mut a = gen::uniform_key_pool(&mut rng, 8, true);
+				if cfg.salt != Some([0u8; 32]) {
+					let bases: Vec<Vec<u8>> = p.iter().take(3).map(|k| k[..32].to_vec()).collect();
+					for b in bases {
+						for tail in [&[][..], &[0u8][..], &[1u8][..], &[0u8, 0][..], &[7u8; 40][..]] {
+							let mut k = b.clone();
+							k.extend_from_slice(tail);
+							if !p.contains(&k) {
+								if rng.chance(1, 5) {
+									a.push(k);
+								} else {
+									p.push(k);
+								}
+							}
+						}
+					}
+				}
 				pools.push(p);
 				absent.push(a);
 			} else if c.btree_index && matches!(profile, Profile::C04 | Profile::C14) && variant % 4 == 0 && cfg.cols.iter().position(|x| x.btree_index) == Some(i) {
